@@ -19,3 +19,8 @@ claim('C16',
       'lock-guard typestate dataflow (must-hold analysis over MIR moves/drops), who-may-call on escaping accessors, per-path store/provenance rules, atomic-RMW discipline',
       'Every atomic access to the pid counters in the workspace is shown to lie inside the live range of the wrap_lock guard on all paths (forward must-dataflow of the guard through moves and drops); the two accessors that leak a reference to a counter have no caller; in allocate each path to a pid construction performs exactly one next_id store whose value is loaded-id+1 (or the reset together with a serial advance) and the returned id/serial/creation have the matching provenance; reference_counter is only touched by atomic fetch_add and each reference word comes from its own fetch_add. Given mutual exclusion, uniqueness reduces to a sequential argument (ids strictly increase between wraps, the serial changes at each wrap) which is stated, not mechanised; interleavings are not explored.',
       NOTE, 'DESIGN.md §4 C16')
+
+claim('C04',
+      'who-may-write + edge-dominance (verify true-edge dominates the Connected write) + provenance slices on the state machine; digest-shape recognition calibrated against a fixture; wire-signature extraction of handshake codecs vs spec/handshake.json; Buf-consumption dataflow; step order/timeout wrapping in connect',
+      'Decided from MIR on all paths: the only write of Connected is dominated by the true edge of ChallengeAck::verify(decode(data), self.our_challenge, self.cookie); verify is digest == compute_digest(challenge, cookie); compute_digest is MD5 over cookie ++ decimal(challenge) (recognised shape); the reply carries our challenge and the digest of the peer\'s; our_challenge only comes from generate_challenge(); negotiated flags are decoded.flags & self.flags; reset clears the challenges; emitted and parsed handshake messages have the protocol byte layout (widths, tag constants, length prefix equal to what follows, field order); every decoder read is covered by a remaining() guard; connect runs the steps in order, ?-propagates each, enables distribution framing only after the ack, and all handshake socket futures are arguments of tokio::time::timeout. Not decided: API-call interleavings as a reachability question, elapsed time, MD5 itself.',
+      NOTE, 'DESIGN.md §4 C04')
